@@ -382,4 +382,219 @@ theorem RelF.lexLookup {m s rs env} (h : RelF m s rs env) (x : String) :
         have h3 := stage3F x h.fscopes hfl0 hc h1 (fun _ => hl0)
         simp only [Option.map_none, h3]
 
+/-! ## What a piece of code may leave changed -/
+
+/-- `Frame`, and the scope table only grew, old scopes keeping their function flags -/
+structure FrameF (s s' : St) : Prop extends Frame s s' where
+  scLen : s.scopes.length ≤ s'.scopes.length
+  flags : ∀ i, i < s.scopes.length → isFnScope s' i = isFnScope s i
+
+theorem FrameF.refl (s : St) : FrameF s s := ⟨Frame.refl s, Nat.le_refl _, fun _ _ => rfl⟩
+
+theorem FrameF.trans {a b c : St} (h₁ : FrameF a b) (h₂ : FrameF b c) : FrameF a c :=
+  ⟨h₁.toFrame.trans h₂.toFrame, Nat.le_trans h₁.scLen h₂.scLen,
+   fun i hi => (h₂.flags i (Nat.lt_of_lt_of_le hi h₁.scLen)).trans (h₁.flags i hi)⟩
+
+theorem FrameF.jmp (s : St) (p : Int) (d : List (Option Val)) : FrameF s (s.jmp p d) :=
+  ⟨Frame.jmp s p d, Nat.le_refl _, fun _ _ => rfl⟩
+
+theorem isFnScope_bind (s : St) (id : Nat) (x : String) (v : Val) (i : Nat) :
+    isFnScope (s.bind id x v) i = isFnScope s i := by
+  unfold isFnScope
+  rw [scopeOf_bind]
+  split
+  · rename_i h; rw [h.1]
+  · rfl
+
+theorem FrameF.bind (s : St) (id : Nat) (x : String) (v : Val) : FrameF s (s.bind id x v) :=
+  ⟨Frame.bind s id x v, by show s.scopes.length ≤ (s.scopes.set id _).length; simp,
+   fun i _ => isFnScope_bind s id x v i⟩
+
+/-- the reference state only grew: frames (parents kept) and closures -/
+def RExt (rs rs' : Ref.St) : Prop := FramesExt rs rs' ∧ ClosExt rs rs'
+
+theorem RExt.refl (rs : Ref.St) : RExt rs rs := ⟨FramesExt.refl rs, ClosExt.refl rs⟩
+theorem RExt.trans {a b c : Ref.St} (h₁ : RExt a b) (h₂ : RExt b c) : RExt a c :=
+  ⟨h₁.1.trans h₂.1, h₁.2.trans h₂.2⟩
+
+/-- the id map was only extended: old function ids keep their closure ids -/
+def MExt (s : St) (m m' : Nat → Nat) : Prop := ∀ id, id < s.fns.length → m' id = m id
+
+theorem MExt.refl (s : St) (m : Nat → Nat) : MExt s m m := fun _ _ => rfl
+theorem MExt.trans {s s' : St} {m m' m'' : Nat → Nat} (h₁ : MExt s m m') (h₂ : MExt s' m' m'')
+    (hlen : s.fns.length ≤ s'.fns.length) : MExt s m m'' :=
+  fun id hid => (h₂ id (Nat.lt_of_lt_of_le hid hlen)).trans (h₁ id hid)
+
+/-- good functions stay good -/
+theorem GoodFn.ext {m m' : Nat → Nat} {s s' : St} {rs rs' : Ref.St} {vid : Nat} (h : GoodFn m s rs vid)
+    (hf : Frame s s') (hr : RExt rs rs') (hm : MExt s m m') : GoodFn m' s' rs' vid :=
+  h.mono hf.fnsLen hf.fns hr.2 (hm vid h.lt)
+
+theorem VOk.ext {m m' : Nat → Nat} {s s' : St} {rs rs' : Ref.St} {v : Val} (h : VOk m s rs v)
+    (hf : Frame s s') (hr : RExt rs rs') (hm : MExt s m m') : VOk m' s' rs' v :=
+  ValIn.mono h (fun _ hg => hg.ext hf hr hm)
+
+theorem HOk.ext {m m' : Nat → Nat} {s s' : St} {rs rs' : Ref.St} {h : DataHeap} (hh : HOk m s rs h)
+    (hf : Frame s s') (hr : RExt rs rs') (hm : MExt s m m') : HOk m' s' rs' h :=
+  HeapIn.mono hh (fun _ hg => hg.ext hf hr hm)
+
+/-- the translation of an orderly value does not depend on how the map was extended -/
+theorem VOk.tr_ext {m m' : Nat → Nat} {s : St} {rs : Ref.St} {v : Val} (h : VOk m s rs v) (hm : MExt s m m') :
+    trf m' v = trf m v :=
+  h m' m id id id id ⟨fun id hg => hm id hg.lt, fun _ _ => rfl, fun _ _ => rfl⟩
+
+theorem HOk.tr_ext {m m' : Nat → Nat} {s : St} {rs : Ref.St} {h : DataHeap} (hh : HOk m s rs h) (hm : MExt s m m') :
+    trHeap m' id id h = trHeap m id id h :=
+  hh m' m id id id id ⟨fun id hg => hm id hg.lt, fun _ _ => rfl, fun _ _ => rfl⟩
+
+/-! ## Congruence: the relation reads scopes, functions, the live stack and `curfunc` only -/
+
+theorem ChainF.congr {isFn isFn' : Nat → Bool} {frames frames' : List Ref.Frame}
+    (hfl : ∀ i, i < frames.length → isFn' i = isFn i)
+    (hext : ∀ (i : Nat) (fr : Ref.Frame), frames[i]? = some fr →
+      ∃ fr' : Ref.Frame, frames'[i]? = some fr' ∧ fr'.parent = fr.parent) :
+    ∀ {b env lin}, ChainF isFn frames b env lin → ChainF isFn' frames' b env lin := by
+  intro b env lin h
+  induction h with
+  | root fr hf hp hfl0 =>
+    obtain ⟨fr', hf', hp'⟩ := hext 0 fr hf
+    exact ChainF.root fr' hf' (hp'.trans hp) (by rw [hfl 0 (lt_of_getElem?_some hf)]; exact hfl0)
+  | cons b env p fr rest hf hp hlt hfl0 _ ih =>
+    obtain ⟨fr', hf', hp'⟩ := hext env fr hf
+    exact ChainF.cons b env p fr' rest hf' (hp'.trans hp) hlt (by rw [hfl env (lt_of_getElem?_some hf)]; exact hfl0) ih
+  | fn env fr below hf hp hpos hfl0 hne =>
+    obtain ⟨fr', hf', hp'⟩ := hext env fr hf
+    exact ChainF.fn env fr' below hf' (hp'.trans hp) hpos (by rw [hfl env (lt_of_getElem?_some hf)]; exact hfl0) hne
+
+/-- the top segment of a chained stack reads the flags of the chain's frames only -/
+theorem takeToBoundary_chain {isFn isFn' : Nat → Bool} {frames : List Ref.Frame}
+    (hfl : ∀ i, i < frames.length → isFn' i = isFn i) :
+    ∀ {b env lin}, ChainF isFn frames b env lin →
+      Scope.takeToBoundary isFn' lin = Scope.takeToBoundary isFn lin := by
+  intro b env lin h
+  induction h with
+  | root fr hf hp hfl0 =>
+    have e : Scope.isFnElem isFn' (some 0) = Scope.isFnElem isFn (some 0) := hfl 0 (lt_of_getElem?_some hf)
+    simp only [Scope.takeToBoundary, e]
+  | cons b env p fr rest hf hp hlt hfl0 _ ih =>
+    have e : Scope.isFnElem isFn' (some env) = Scope.isFnElem isFn (some env) := hfl env (lt_of_getElem?_some hf)
+    simp only [Scope.takeToBoundary, e, ih]
+  | fn env fr below hf hp hpos hfl0 hne =>
+    have e : Scope.isFnElem isFn' (some env) = Scope.isFnElem isFn (some env) := hfl env (lt_of_getElem?_some hf)
+    have e2 : Scope.isFnElem isFn (some env) = true := hfl0
+    simp only [Scope.takeToBoundary, e, e2, if_true]
+
+theorem FnChainF.transfer {s s' : St} (hseg : topSeg s' = topSeg s) (hlen : s.fns.length ≤ s'.fns.length)
+    (hfns : ∀ id, id < s.fns.length → fnOf s' id = fnOf s id) : ∀ {b f}, FnChainF s b f → FnChainF s' b f := by
+  intro b f h
+  induction h with
+  | root f hlt hp hs =>
+    exact FnChainF.root f (Nat.lt_of_lt_of_le hlt hlen) (by rw [hfns f hlt]; exact hp) (by rw [hseg, hfns f hlt]; exact hs)
+  | step b f p hlt hp hpf hs _ ih =>
+    exact FnChainF.step b f p (Nat.lt_of_lt_of_le hlt hlen) (by rw [hfns f hlt]; exact hp) hpf
+      (by rw [hseg, hfns f hlt]; exact hs) ih
+  | clos f p hlt hp hpf hclo hpp =>
+    exact FnChainF.clos f p (Nat.lt_of_lt_of_le hlt hlen) (by rw [hfns f hlt]; exact hp) hpf
+      (by rw [hfns f hlt]; exact hclo) (by rw [hfns p (by omega)]; exact hpp)
+
+/-- a state with the same scopes, functions, live stack and current function, against a reference
+state with the same frames and closures -/
+theorem RelF.of_same {m : Nat → Nat} {s s' : St} {rs rs' : Ref.St} {env : Nat} (h : RelF m s rs env)
+    (hsc : s'.scopes = s.scopes) (hlin : s'.linear = s.linear) (hfns : s'.fns = s.fns) (hcur : s'.curfunc = s.curfunc)
+    (hfr : rs'.frames = rs.frames) (hcl : rs'.clos = rs.clos) (hheap : rs'.heap = trHeap m id id s'.heap)
+    (htr : s'.trace = rs'.trace) (hok : HOk m s rs s'.heap) : RelF m s' rs' env := by
+  have hso : ∀ i, scopeOf s' i = scopeOf s i := fun i => by unfold scopeOf; rw [hsc]
+  have hfo : ∀ i, fnOf s' i = fnOf s i := fun i => by unfold fnOf; rw [hfns]
+  have hfl : isFnScope s' = isFnScope s := by funext i; unfold isFnScope; rw [hso]
+  have hgood : ∀ id, GoodFn m s rs id → GoodFn m s' rs' id := fun id hg =>
+    hg.mono (by rw [hfns]; exact Nat.le_refl _) (fun i _ => hfo i) (fun i c hc => by rw [hcl]; exact hc) rfl
+  obtain ⟨b, hc, hfc⟩ := h.ctx
+  obtain ⟨fr0, hf0, hp0, hfl0⟩ := h.root0
+  refine ⟨by rw [hsc, hfr]; exact h.len, fun i x => by rw [hfr, hso]; exact h.vars i x,
+    ⟨fr0, by rw [hfr]; exact hf0, hp0, by rw [hfl]; exact hfl0⟩, ⟨b, by rw [hfl, hfr, hlin]; exact hc, ?_⟩,
+    fun i hi => by rw [hfl] at hi; obtain ⟨t, h1, h2⟩ := h.fscopes i hi; exact ⟨t, by rw [hso]; exact h1, by rw [hfo]; exact h2⟩,
+    hheap, htr, fun hh hm => by rw [hfr]; exact h.globals hh hm,
+    fun i x v hx hv => ValIn.mono (h.vok i x v hx (by rw [← hso]; exact hv)) hgood, HeapIn.mono hok hgood⟩
+  rw [hcur]
+  exact hfc.transfer (by unfold topSeg; rw [hfl, hlin]) (by rw [hfns]; exact Nat.le_refl _) (fun i _ => hfo i)
+
+theorem RelF.jmp {m s rs env} (h : RelF m s rs env) (p : Int) (d : List (Option Val)) : RelF m (s.jmp p d) rs env :=
+  h.of_same rfl rfl rfl rfl rfl rfl h.heap h.trace h.hok
+
+/-! ## Assignments -/
+
+theorem okName_binder {x : String} (h : okName x = true) : okBinder x = true := by
+  unfold okName at h; simp only [Bool.and_eq_true] at h; exact h.1
+
+theorem okName_sym {x : String} (h : okName x = true) : okSym x = true := by
+  unfold okName at h; simp only [Bool.and_eq_true] at h; exact h.2
+
+theorem setVar_clos (rs : Ref.St) (id : Nat) (x : String) (v : Val) : (Ref.setVar rs id x v).clos = rs.clos := by
+  unfold Ref.setVar; split <;> rfl
+
+theorem setVar_heap (rs : Ref.St) (id : Nat) (x : String) (v : Val) : (Ref.setVar rs id x v).heap = rs.heap := by
+  unfold Ref.setVar; split <;> rfl
+
+theorem setVar_trace (rs : Ref.St) (id : Nat) (x : String) (v : Val) : (Ref.setVar rs id x v).trace = rs.trace := by
+  unfold Ref.setVar; split <;> rfl
+
+/-- Binding `x := v` in scope `id` / `x := tr v` in frame `id` keeps the relation. -/
+theorem RelF.bind {m s rs env} (h : RelF m s rs env) (id : Nat) (hid : id < rs.frames.length) {x : String}
+    (hx : okName x = true) {v : Val} (hv : VOk m s rs v) :
+    RelF m (s.bind id x v) (Ref.setVar rs id x (trf m v)) env := by
+  obtain ⟨fr, hfr⟩ : ∃ fr, rs.frames[id]? = some fr := ⟨rs.frames[id], by simp [hid]⟩
+  have hset : Ref.setVar rs id x (trf m v)
+      = { rs with frames := rs.frames.set id { fr with vars := VM.assocSet fr.vars x (trf m v) } } := by
+    unfold Ref.setVar; rw [hfr]; rfl
+  have hlen : id < s.scopes.length := by rw [h.len]; exact hid
+  have hfl : isFnScope (s.bind id x v) = isFnScope s := funext (isFnScope_bind s id x v)
+  have hext := FramesExt.setVar rs id x (trf m v)
+  have hgood : ∀ k, GoodFn m s rs k → GoodFn m (s.bind id x v) (Ref.setVar rs id x (trf m v)) k := fun k hg =>
+    hg.mono (Nat.le_refl _) (fun _ _ => rfl) (fun i c hc => by rw [setVar_clos]; exact hc) rfl
+  obtain ⟨b, hc, hfc⟩ := h.ctx
+  obtain ⟨fr0, hf0, hp0, hfl0⟩ := h.root0
+  refine ⟨?_, ?_, ?_, ⟨b, ?_, ?_⟩, ?_, by rw [setVar_heap]; exact h.heap, by rw [setVar_trace]; exact h.trace,
+    h.globals.setVar id (okName_binder hx) _, ?_, HeapIn.mono h.hok hgood⟩
+  · rw [hset]; show (s.scopes.set id _).length = (rs.frames.set id _).length
+    simp [h.len]
+  · intro i y
+    rw [scopeOf_bind, hset]
+    show ((rs.frames.set id _).getD i {}).vars.lookup y = _
+    by_cases hi : i = id
+    · subst hi
+      have hvx := h.vars i y
+      rw [List.getD_eq_getElem?_getD, hfr, Option.getD_some] at hvx
+      simp only [hlen, and_self, if_true, List.getD_eq_getElem?_getD, List.getElem?_set_self hid, Option.getD_some,
+        lookup_assocSet, hvx]
+      split <;> rfl
+    · have hi' : ¬ id = i := fun e => hi e.symm
+      simp only [hi, false_and, if_false, List.getD_eq_getElem?_getD, List.getElem?_set_ne hi']
+      have hvx := h.vars i y
+      rw [List.getD_eq_getElem?_getD] at hvx
+      exact hvx
+  · obtain ⟨fr0', hf0', hp0'⟩ := hext 0 fr0 hf0
+    exact ⟨fr0', hf0', hp0'.trans hp0, by rw [hfl]; exact hfl0⟩
+  · rw [hfl]; exact hc.congr (fun _ _ => rfl) hext
+  · have hts : topSeg (s.bind id x v) = topSeg s := by
+      show Scope.takeToBoundary (isFnScope (s.bind id x v)) s.linear = Scope.takeToBoundary (isFnScope s) s.linear
+      rw [hfl]
+    exact hfc.transfer (s' := s.bind id x v) hts (Nat.le_refl _) (fun _ _ => rfl)
+  · intro i hi
+    rw [hfl] at hi
+    obtain ⟨t, h1, h2⟩ := h.fscopes i hi
+    refine ⟨t, ?_, h2⟩
+    rw [scopeOf_bind]
+    split
+    · rename_i hh; rw [← hh.1]; exact h1
+    · exact h1
+  · intro i y w hy hw
+    rw [scopeOf_bind] at hw
+    split at hw
+    · rename_i hh
+      simp only [lookup_assocSet] at hw
+      split at hw
+      · injection hw with hw; subst hw; exact ValIn.mono hv hgood
+      · exact ValIn.mono (h.vok id y w hy hw) hgood
+    · exact ValIn.mono (h.vok i y w hy hw) hgood
+
 end ZygoVerif.Sim
